@@ -343,20 +343,15 @@ def leaves_overlap(model, l1, l2, version):
     return True
 
 
-_WILD_NS = {'any': None, 'other': 'other', 'local': {''}, 'tns': {M.TNS}, 'n1': {M.N1}}
-
-
 def wild_sets_intersect(c1, c2):
-    a, b = _WILD_NS[c1], _WILD_NS[c2]
-    if a is None or b is None:
-        return True
-    if a == 'other' and b == 'other':
-        return True
-    if a == 'other':
-        return any(ns not in ('', M.TNS) for ns in b)
-    if b == 'other':
-        return any(ns not in ('', M.TNS) for ns in a)
-    return bool(a & b)
+    (k1, a), (k2, b) = M.WILDCARD_SETS[c1], M.WILDCARD_SETS[c2]
+    if k1 == 'in' and k2 == 'in':
+        return bool(a & b)
+    if k1 == 'in':
+        return bool(a - b)
+    if k2 == 'in':
+        return bool(b - a)
+    return True     # two complements of finite sets always share a namespace
 
 
 def upa_derivative(model, version, max_states=4000):
@@ -526,7 +521,7 @@ def edc_violation(model):
         if node[0] == 'w':
             continue
         typ = node[2] if node[0] == 't' else 'string'
-        names = model.leaf_syms[lid] if node[0] != 'h' else {'h', 'm', 'k'}
+        names = model.leaf_syms[lid] if node[0] != 'h' else {'h', 'm', 'k', 'j'}
         for nm in names:
             if nm in seen and seen[nm][0] != typ:
                 return {'name': nm, 'particles': [seen[nm][1], lid]}
